@@ -343,7 +343,7 @@ theorem getToken_cases (t : Tokenizer) (k : Nat) :
 /-- with the repaired methods no call ends in anything but a value (a `bpp` exception of
 `nextToken` / `getToken` is the answer `raised`); the invariant is only needed by
 `unparseRemainingTokens` of a StringTokenizer -/
-theorem callStep_spec (nested : Bool) (t : Tokenizer) (hwf : nested = true ∨ t.WF) (c : Call) :
+theorem callStep_spec (nested : Bool) (t : Tokenizer) (hwf : t.WF) (c : Call) :
     ∃ a t', callStep nested true t c = .ok (a, t') ∧ (t.WF → t'.WF) ∧
       (t.pos ≤ t.tokens.length → t'.pos ≤ t'.tokens.length) ∧ t'.tokens.length ≤ t.tokens.length := by
   cases c with
@@ -369,16 +369,9 @@ theorem callStep_spec (nested : Bool) (t : Tokenizer) (hwf : nested = true ∨ t
     · rw [h1]; exact h4 w
   | unparse =>
     unfold callStep
-    cases nested with
-    | true => exact ⟨_, _, rfl, id, id, Nat.le_refl _⟩
-    | false =>
-      have w : t.WF := by
-        rcases hwf with h | h
-        · cases h
-        · exact h
-      obtain ⟨u, e⟩ := unparse_ok t w
-      simp only [Bool.false_eq_true, if_false, if_true, e, bind_ok, pure_eq_ok]
-      exact ⟨_, _, rfl, id, id, Nat.le_refl _⟩
+    obtain ⟨u, e⟩ := unparse_ok t hwf
+    simp only [if_true, e, bind_ok, pure_eq_ok]
+    exact ⟨_, _, rfl, id, id, Nat.le_refl _⟩
   | get k =>
     unfold callStep
     rcases getToken_cases t k with ⟨tok, e⟩ | e
@@ -387,14 +380,14 @@ theorem callStep_spec (nested : Bool) (t : Tokenizer) (hwf : nested = true ∨ t
     · simp only [if_true, e]
       exact ⟨_, _, rfl, id, id, Nat.le_refl _⟩
 
-theorem runCalls_ok (nested : Bool) (t : Tokenizer) (hwf : nested = true ∨ t.WF) (calls : List Call) :
+theorem runCalls_ok (nested : Bool) (t : Tokenizer) (hwf : t.WF) (calls : List Call) :
     ∃ l, runCalls nested true t calls = .ok l := by
   induction calls generalizing t with
   | nil => exact ⟨[], rfl⟩
   | cons c cs ih =>
     unfold runCalls
     obtain ⟨a, t', e, h1, _, _⟩ := callStep_spec nested t hwf c
-    obtain ⟨l, el⟩ := ih t' (hwf.imp id h1)
+    obtain ⟨l, el⟩ := ih t' (h1 hwf)
     simp only [e, bind_ok, el, pure_eq_ok]
     exact ⟨_, rfl⟩
 
@@ -464,8 +457,9 @@ theorem nestNs_spec (s op en d : Str) (hs : s.length < 2147483648) (fuel index :
     (cache : Str) (hi : index ≤ s.length) (hf : s.length - index + 1 ≤ fuel)
     (hb1 : -(index : Int) ≤ blocks) (hb2 : blocks ≤ index) :
     safe (nestNs s op en d fuel index (findFirstOf d s index) blocks cache) = true ∧
-    ∀ ts, nestNs s op en d fuel index (findFirstOf d s index) blocks cache = .ok ts →
-      ts ≠ [] ∧ sumLen ts ≤ cache.length + (s.length - index) ∧ ts.length ≤ s.length - index + 1 := by
+    ∀ ts ss, nestNs s op en d fuel index (findFirstOf d s index) blocks cache = .ok (ts, ss) →
+      ts ≠ [] ∧ ts.length ≤ ss.length + 1 ∧
+      sumLen ts + sumLen ss ≤ cache.length + (s.length - index) ∧ ts.length ≤ s.length - index + 1 := by
   have hsz : s.length + 4 < SZ := by unfold SZ; omega
   induction fuel generalizing index blocks cache with
   | zero => omega
@@ -478,12 +472,13 @@ theorem nestNs_spec (s op en d : Str) (hs : s.length < 2147483648) (fuel index :
         (by simp only [List.length_drop]; omega)
       simp only [e, bind_ok]
       by_cases hz : (b' == 0) = true
-      · simp only [hz, if_true, pure_eq_ok, safe_ok, Except.ok.injEq, true_and]
-        intro ts hts; subst hts
+      · simp only [hz, if_true, pure_eq_ok, safe_ok, Except.ok.injEq, Prod.mk.injEq, true_and]
+        rintro ts ss ⟨rfl, rfl⟩
         simp
       · simp [hz]
     | some n =>
       have hb := findFirstOf_bounds h
+      have hn : n ≤ s.length := by omega
       have hw : wsub n index = n - index := wsub_eq hb.1 (by omega)
       have hw1 : wadd n 1 = n + 1 := wadd_eq (by omega)
       have hw2 : wadd (n - index) 1 = n - index + 1 := wadd_eq (by omega)
@@ -496,31 +491,36 @@ theorem nestNs_spec (s op en d : Str) (hs : s.length < 2147483648) (fuel index :
       rw [hl] at g1 g2
       simp only [e, bind_ok]
       by_cases hz : (b' == 0) = true
-      · simp only [hz, if_true]
+      · simp only [hz, if_true, substr_ok _ hn, bind_ok]
         cases h' : findFirstNotOf d s n with
         | none =>
-          simp only [pure_eq_ok, safe_ok, Except.ok.injEq, true_and]
-          intro ts hts; subst hts
+          simp only [pure_eq_ok, safe_ok, Except.ok.injEq, Prod.mk.injEq, true_and]
+          rintro ts ss ⟨rfl, rfl⟩
           simp only [ne_eq, List.cons_ne_self, not_false_eq_true, sumLen_cons, List.length_append, hl,
-            sumLen_nil, List.length_cons, List.length_nil, true_and]
+            sumLen_nil, List.length_cons, List.length_nil, true_and, List.length_take, List.length_drop]
           omega
         | some i =>
           have hb' := findFirstNotOf_bounds h'
           have hgt := findFirstNotOf_gt h h'
+          have hw3 : wsub (toSz (some i)) n = i - n := by
+            simp only [toSz]; exact wsub_eq (by omega) (by omega)
           obtain ⟨s1, s2⟩ := ih i 0 [] (by omega) (by omega) (by omega) (by omega)
-          refine ⟨safe_bind_pure s1, fun ts hts => ?_⟩
-          obtain ⟨rest, er, rfl⟩ := bind_pure_eq_ok hts
-          obtain ⟨_, r2, r3⟩ := s2 rest er
+          simp only [hw3]
+          refine ⟨safe_bind_pure s1, fun ts ss hts => ?_⟩
+          obtain ⟨⟨ts', ss'⟩, er, hp⟩ := bind_pure_eq_ok hts
+          simp only [Prod.mk.injEq] at hp
+          obtain ⟨rfl, rfl⟩ := hp
+          obtain ⟨_, r1, r2, r3⟩ := s2 ts' ss' er
           simp only [ne_eq, reduceCtorEq, not_false_eq_true, sumLen_cons, List.length_append, hl,
-            List.length_cons, true_and]
+            List.length_cons, true_and, List.length_take, List.length_drop]
           simp only [List.length_nil] at r2
           omega
       · simp only [hz]
         obtain ⟨s1, s2⟩ := ih (n + 1) b' (cache ++ (s.drop index).take (n - index + 1)) (by omega) (by omega)
           (by omega) (by omega)
-        refine ⟨s1, fun ts hts => ?_⟩
-        obtain ⟨r1, r2, r3⟩ := s2 ts hts
-        refine ⟨r1, ?_, by omega⟩
+        refine ⟨s1, fun ts ss hts => ?_⟩
+        obtain ⟨r0, r1, r2, r3⟩ := s2 ts ss hts
+        refine ⟨r0, r1, ?_, by omega⟩
         simp only [List.length_append, List.length_take, List.length_drop] at r2
         omega
 
@@ -528,8 +528,9 @@ theorem nestSolid_spec (s op en d : Str) (hd : d ≠ []) (hs : s.length < 214748
     (blocks : Int) (cache : Str) (hi : index ≤ s.length) (hf : s.length - index + 1 ≤ fuel)
     (hb1 : -(index : Int) ≤ blocks) (hb2 : blocks ≤ index) :
     safe (nestSolid s op en d fuel index (findFrom d s index) blocks cache) = true ∧
-    ∀ ts, nestSolid s op en d fuel index (findFrom d s index) blocks cache = .ok ts →
-      ts ≠ [] ∧ sumLen ts ≤ cache.length + (s.length - index) ∧ ts.length ≤ s.length - index + 1 := by
+    ∀ ts ss, nestSolid s op en d fuel index (findFrom d s index) blocks cache = .ok (ts, ss) →
+      ts ≠ [] ∧ ts.length = ss.length + 1 ∧
+      sumLen ts + sumLen ss ≤ cache.length + (s.length - index) ∧ ts.length ≤ s.length - index + 1 := by
   have hsz : s.length + 4 < SZ := by unfold SZ; omega
   have hdl : 0 < d.length := List.length_pos_iff.mpr hd
   induction fuel generalizing index blocks cache with
@@ -543,8 +544,8 @@ theorem nestSolid_spec (s op en d : Str) (hd : d ≠ []) (hs : s.length < 214748
         (by simp only [List.length_drop]; omega)
       simp only [e, bind_ok]
       by_cases hz : (b' == 0) = true
-      · simp only [hz, if_true, pure_eq_ok, safe_ok, Except.ok.injEq, true_and]
-        intro ts hts; subst hts
+      · simp only [hz, if_true, pure_eq_ok, safe_ok, Except.ok.injEq, Prod.mk.injEq, true_and]
+        rintro ts ss ⟨rfl, rfl⟩
         simp
       · simp [hz]
     | some n =>
@@ -564,9 +565,11 @@ theorem nestSolid_spec (s op en d : Str) (hd : d ≠ []) (hs : s.length < 214748
       by_cases hz : (b' == 0) = true
       · simp only [hz, if_true]
         obtain ⟨s1, s2⟩ := ih (n + d.length) 0 [] (by omega) (by omega) (by omega) (by omega)
-        refine ⟨safe_bind_pure s1, fun ts hts => ?_⟩
-        obtain ⟨rest, er, rfl⟩ := bind_pure_eq_ok hts
-        obtain ⟨_, r2, r3⟩ := s2 rest er
+        refine ⟨safe_bind_pure s1, fun ts ss hts => ?_⟩
+        obtain ⟨⟨ts', ss'⟩, er, hp⟩ := bind_pure_eq_ok hts
+        simp only [Prod.mk.injEq] at hp
+        obtain ⟨rfl, rfl⟩ := hp
+        obtain ⟨_, r1, r2, r3⟩ := s2 ts' ss' er
         simp only [ne_eq, reduceCtorEq, not_false_eq_true, sumLen_cons, List.length_append, hl,
           List.length_cons, true_and]
         simp only [List.length_nil] at r2
@@ -574,18 +577,20 @@ theorem nestSolid_spec (s op en d : Str) (hd : d ≠ []) (hs : s.length < 214748
       · simp only [hz]
         obtain ⟨s1, s2⟩ := ih (n + 1) b' (cache ++ (s.drop index).take (n - index + 1)) (by omega) (by omega)
           (by omega) (by omega)
-        refine ⟨s1, fun ts hts => ?_⟩
-        obtain ⟨r1, r2, r3⟩ := s2 ts hts
-        refine ⟨r1, ?_, by omega⟩
+        refine ⟨s1, fun ts ss hts => ?_⟩
+        obtain ⟨r0, r1, r2, r3⟩ := s2 ts ss hts
+        refine ⟨r0, r1, ?_, by omega⟩
         simp only [List.length_append, List.length_take, List.length_drop] at r2
         omega
 
-/-- what the NestedStringTokenizer constructor establishes (`splits_` stays empty, so the
-`splits` clause of `Tokenizer.WF` does not hold as soon as there are two tokens) -/
+/-- what the NestedStringTokenizer constructor establishes: the class invariant (since the repair
+`fix: NestedStringTokenizer never recorded its separators …` there is a separator for every token
+but the last) and the allocation bounds -/
 theorem mkNested_spec (s op en d : Str) (solid : Bool) (hs : s.length < 2147483648) :
     safe (mkNested s op en d solid) = true ∧
-    ∀ t, mkNested s op en d solid = .ok t → t.pos = 0 ∧ t.splits = [] ∧
-      sumLen t.tokens ≤ s.length ∧ t.tokens.length ≤ s.length + 1 := by
+    ∀ t, mkNested s op en d solid = .ok t → t.pos = 0 ∧ t.WF ∧
+      sumLen t.tokens + sumLen t.splits ≤ s.length ∧ t.tokens.length ≤ s.length + 1 := by
+  have hSZ : s.length + 1 < SZ := by unfold SZ; omega
   unfold mkNested mkNestedG
   cases solid with
   | false =>
@@ -593,17 +598,19 @@ theorem mkNested_spec (s op en d : Str) (solid : Bool) (hs : s.length < 21474836
     cases h : findFirstNotOf d s 0 with
     | none =>
       simp only [safe_ok, Except.ok.injEq, true_and]
-      intro t ht; subst ht; simp
+      intro t ht; subst ht
+      exact ⟨rfl, ⟨Nat.le_refl _, by simp, by simp [SZ]⟩, by simp, by simp⟩
     | some index =>
       have hb := findFirstNotOf_bounds h
       obtain ⟨s1, s2⟩ := nestNs_spec s op en d hs (loopFuel s) index 0 [] (by omega)
         (by unfold loopFuel; omega) (by omega) (by omega)
       refine ⟨safe_bind_pure s1, fun t ht => ?_⟩
-      obtain ⟨ts, e, rfl⟩ := bind_pure_eq_ok ht
-      obtain ⟨_, r2, r3⟩ := s2 ts e
+      obtain ⟨⟨ts, ss⟩, e, rfl⟩ := bind_pure_eq_ok ht
+      obtain ⟨_, r1, r2, r3⟩ := s2 ts ss e
       simp only [List.length_nil] at r2
-      refine ⟨rfl, rfl, ?_, ?_⟩
-      · show sumLen ts ≤ s.length; omega
+      refine ⟨rfl, ⟨Nat.zero_le _, r1, ?_⟩, ?_, ?_⟩
+      · show ts.length < SZ; omega
+      · show sumLen ts + sumLen ss ≤ s.length; omega
       · show ts.length ≤ s.length + 1; omega
   | true =>
     simp only [Bool.not_true, Bool.false_eq_true, if_false, Bool.true_and]
@@ -615,11 +622,12 @@ theorem mkNested_spec (s op en d : Str) (solid : Bool) (hs : s.length < 21474836
         (by unfold loopFuel; omega) (by omega) (by omega)
       simp only [hd]
       refine ⟨safe_bind_pure s1, fun t ht => ?_⟩
-      obtain ⟨ts, e, rfl⟩ := bind_pure_eq_ok ht
-      obtain ⟨_, r2, r3⟩ := s2 ts e
+      obtain ⟨⟨ts, ss⟩, e, rfl⟩ := bind_pure_eq_ok ht
+      obtain ⟨_, r1, r2, r3⟩ := s2 ts ss e
       simp only [List.length_nil] at r2
-      refine ⟨rfl, rfl, ?_, ?_⟩
-      · show sumLen ts ≤ s.length; omega
+      refine ⟨rfl, ⟨Nat.zero_le _, by show ts.length ≤ ss.length + 1; omega, ?_⟩, ?_, ?_⟩
+      · show ts.length < SZ; omega
+      · show sumLen ts + sumLen ss ≤ s.length; omega
       · show ts.length ≤ s.length + 1; omega
 
 end Bpp.Text.U
